@@ -142,7 +142,7 @@ PROPS = {
         "rule": "ticks_subset / ticks_merger on all ordered pairs of the small-scope universe, related random pairs and reachable (sample, accumulator) pairs; ticks_infer / ticks_inferv on random documents and on the D10 family [[..[1,1]..,1],1] to depth 24; allocation counts of from_str, From<&Value>, from_sources, is_subset on depth 1..20, object-nesting 1..10, width 10..1000 (thorough 10^4), 10..1000 sources with a log-log slope test. Non-trivial = container involved.",
         "assumptions": ["allocations and wall time are bounded by a polynomial of the call counts (validated by the measured families)"],
         "level_text": "For the deterministic call-count measure the bounds are Lean theorems over all inputs: the value path converts each node exactly once (so a nesting level adds work proportional to that level — the exponential D10 behaviour is gone), the text path enters parse_rule at most once per node, merging k sources costs at most the total size of the sources in merger calls, and a subset query makes at most size(a)*size(b) calls. The model's counts are compared with hook counters in the real code for every generated case; allocation counts on the property's growth families are measured on the real code and must fit a low-degree polynomial.",
-        "level_note": "Trusted: Lean kernel (plus Mathlib's nlinarith in this proof file only); tick twins written by hand and tied to the hooks by exact comparison; the link from call counts to allocations/time is empirical.",
+        "level_note": "Trusted: Lean kernel; tick twins written by hand and tied to the hooks by exact comparison; the link from call counts to allocations/time is empirical.",
     },
     "C17": {
         "module": "ShapeVerif.Props.C17",
